@@ -482,9 +482,11 @@ class MHist(Monitor):
         return False
 
     def state(self):
-        return [sorted((a, n) for a, n in self.checked.items()), sorted(self.term.items()),
-                sorted((a, sorted(o.items())) for a, o in self.open.items()), sorted((a, v) for a, v in self.top.items()),
-                sorted(self.failure_seen), sorted((a, sorted(b.items())) for a, b in self.bal.items())]
+        # (state names come from event bodies: under a broken engine they can be None or not strings - order by their text)
+        k = lambda x: json.dumps(x, sort_keys=True, default=str)
+        return [sorted(((a, n) for a, n in self.checked.items()), key=k), sorted(self.term.items(), key=k),
+                sorted(((a, sorted(o.items(), key=k)) for a, o in self.open.items()), key=k), sorted(((a, v) for a, v in self.top.items()), key=k),
+                sorted(self.failure_seen, key=k), sorted(((a, sorted(b.items(), key=k)) for a, b in self.bal.items()), key=k)]
 
 # ------------------------------------------------------------------------------------------------------
 class MViews(Monitor):
